@@ -50,10 +50,11 @@ type (
 )
 
 type Clause struct {
-	Label string
-	Props []string
-	Expr  Expr
-	Src   string
+	Label   string
+	Props   []string
+	Expr    Expr
+	Src     string
+	Trusted bool // assumed at call sites, not proved from the body (inventoried)
 }
 
 type LoopContract struct {
@@ -474,7 +475,7 @@ func (p *parser) parsePrimary() Expr {
 // ---- file parser ----
 
 var clauseKeywords = map[string]bool{
-	"func": true, "extern": true, "props": true, "requires": true, "ensures": true, "modifies": true,
+	"func": true, "extern": true, "ensures_trusted": true, "props": true, "requires": true, "ensures": true, "modifies": true,
 	"pure": true, "trusted": true, "loop": true, "call": true, "allowpanic": true, "set": true,
 	"pred": true, "fn": true, "axiom": true, "lemma": true, "ghost": true, "abstract": true,
 	"mode": true, "inline": true, "nosafety": true, "replay": true, "const": true, "package": true,
@@ -583,7 +584,7 @@ func parseSpecFile(path string) (*SpecFile, error) {
 			cur.InlineOnly = true
 		case "nosafety":
 			cur.NoSafety = true
-		case "requires", "ensures":
+		case "requires", "ensures", "ensures_trusted":
 			if cur == nil {
 				return nil, fail(c, "%s outside func", c.kw)
 			}
@@ -594,6 +595,7 @@ func parseSpecFile(path string) (*SpecFile, error) {
 			if c.kw == "requires" {
 				cur.Requires = append(cur.Requires, cl)
 			} else {
+				cl.Trusted = c.kw == "ensures_trusted"
 				cur.Ensures = append(cur.Ensures, cl)
 			}
 		case "allowpanic":
@@ -608,6 +610,8 @@ func parseSpecFile(path string) (*SpecFile, error) {
 				switch {
 				case part == "all":
 					cur.Modifies = append(cur.Modifies, ModTarget{Kind: "all"})
+				case part == "foreign" || part == "data":
+					cur.Modifies = append(cur.Modifies, ModTarget{Kind: part})
 				case part == "nothing":
 					if cur.Modifies == nil {
 						cur.Modifies = []ModTarget{}
